@@ -480,6 +480,21 @@ def check_r20_2_unknown_values(repo: Repo, chk: Check) -> None:
     # a statement inside the loop that leaves the iteration for unknown keys: `if <known> is not None and k not in <known>: ...; continue`
     skips = [i for lp in loops for i in ast.walk(lp) if isinstance(i, ast.If) and any(isinstance(x, ast.Continue) for x in i.body) and
              any(isinstance(c, ast.Compare) and isinstance(c.ops[0], ast.NotIn) and isinstance(c.left, ast.Name) and c.left.id in keyvars for c in ast.walk(i.test))]
+    # ... and every key that means nothing is HANDED ON (the validator that warns runs after this parser): an iteration may leave a key out of the result
+    # only after the unknown-key branch has been passed - a skip of empty values placed before it hides `no-such-option =` from the validator
+    unknown_ifs = [i for lp in inner for i in ast.walk(lp) if isinstance(i, ast.If) and
+                   any(isinstance(c, ast.Compare) and isinstance(c.ops[0], ast.NotIn) and isinstance(c.left, ast.Name) and c.left.id in keyvars for c in ast.walk(i.test))]
+    for lp in inner:
+        stores_i = [n for n in ast.walk(lp) if isinstance(n, ast.Assign) and any(isinstance(t, ast.Subscript) for t in n.targets)]
+        if not lp.body:
+            continue
+        plain = cfi.reachable(lp.body[0], avoid_nodes=stores_i, no_exc=True)
+        for c in [x for x in ast.walk(lp) if isinstance(x, ast.Continue) and id(x) in plain]:
+            okc = any(cfi.dominates(u, c, no_exc=True) for u in unknown_ifs)
+            chk.ob('R20.2', f'{CP}.IniConfigParser.parse :: a key is left out of the result only after the unknown keys have been handed on', okc,
+                   'the skip comes after the unknown-key branch' if okc else
+                   f'the `continue` at line {c.lineno} drops the key before the test for unknown keys: `no-such-option =` (an empty value) in setup.cfg / pydoctor.ini never reaches '
+                   'the validator and gets no "No such config option" warning, while the same key in pyproject.toml does', repo.loc(ip.mod, c))
     per_key = [r for r in raises_ if any(r in list(ast.walk(st)) for lp in ip.walk() if isinstance(lp, ast.For) for st in lp.body)]
     if not per_key:
         raise AnalysisError('R20.2: no per-key evaluation error found in IniConfigParser.parse')
